@@ -43,6 +43,9 @@ def prepare_process():
 
 
 _tickets_fixed = False
+# worlds that study session resumption switch the tickets back on (their digests must then
+# ignore sizes: ticket lengths vary)
+TICKETS = {"allow": False}
 
 
 def _fix_ticket_lengths():
@@ -63,7 +66,7 @@ def _fix_ticket_lengths():
     def load_cert_chain(self, *a, **kw):
         r = orig_load(self, *a, **kw)
         try:
-            if self.protocol == ssl.PROTOCOL_TLS_SERVER:
+            if self.protocol == ssl.PROTOCOL_TLS_SERVER and not TICKETS["allow"]:
                 self.num_tickets = 0
         except Exception:
             pass
@@ -76,7 +79,8 @@ def _fix_ticket_lengths():
         def ctx_init(self, *a, **kw):
             orig_init(self, *a, **kw)
             try:
-                self.set_options(SSL.OP_NO_TICKET)
+                if not TICKETS["allow"]:
+                    self.set_options(SSL.OP_NO_TICKET)
             except Exception:
                 pass
         SSL.Context.__init__ = ctx_init
@@ -273,11 +277,11 @@ class Sim:
             h.update(repr(ev).encode())
         return h.hexdigest()[:16]
 
-    def signature(self) -> str:
+    def signature(self, sizes=True) -> str:
         """Time-stripped schedule signature: sequence of (kind, role, size bucket)."""
         h = hashlib.sha256()
         for _, kind, who, n in self.net.events:
             role = who.split(".")[-1]
-            b = 0 if n == 0 else n.bit_length()
+            b = 0 if (n == 0 or not sizes) else n.bit_length()
             h.update(f"{kind}:{role}:{b};".encode())
         return h.hexdigest()[:16]
